@@ -1,8 +1,424 @@
 //! Simulator step contracts (child module of maybenot-simulator's lib.rs, cfg(kani) only).
+//! Whole simulated runs with machines are out of reach (DESIGN.md C14-C19); what is decided here
+//! is the contract of each scheduler function from every small symbolic state, with the framework's
+//! machine step replaced by "any well-formed action" (maybenot::verif::transition_any_action).
 use super::*;
+use crate::queue_event::{EventQueue, Queue};
+use maybenot::verif::{aa_calls, aa_duration, aa_last, aa_timeout, set_mode, MODE_ANY_ACTION};
+use std::collections::BinaryHeap;
 
 #[kani::proof]
 fn s_warm() {
     let x: u8 = kani::any();
     assert!(x as u16 <= 255);
+}
+
+pub(crate) fn any_instant() -> Instant {
+    // std::time::Instant is (secs: i64-like, nanos < 1e9) on this target; any value in a window that
+    // leaves room for a day of timeout/duration on both sides
+    #[repr(C)]
+    struct TS {
+        secs: i64,
+        nanos: u32,
+    }
+    let secs: i64 = kani::any();
+    let nanos: u32 = kani::any();
+    kani::assume(nanos < 1_000_000_000);
+    kani::assume(secs >= (1 << 20) && secs < (1i64 << 40));
+    unsafe { core::mem::transmute::<TS, Instant>(TS { secs, nanos }) }
+}
+pub(crate) fn any_duration_upto(max_us: u64) -> Duration {
+    let us: u64 = kani::any();
+    kani::assume(us <= max_us);
+    Duration::from_micros(us)
+}
+pub(crate) fn empty_queue() -> SimQueue {
+    let eq = || EventQueue { base: BinaryHeap::new(), blocking: BinaryHeap::new(), bypassable: BinaryHeap::new(), internal: BinaryHeap::new() };
+    SimQueue { client: eq(), server: eq(), max_pps: None }
+}
+pub fn format_stub(_args: core::fmt::Arguments<'_>) -> String {
+    String::new()
+}
+fn no_thread_rng() -> ThreadRng {
+    panic!("C19: rand::thread_rng reached in a seeded, integration-free run")
+}
+const DAY_US: u64 = 86_400_000_000;
+
+fn noop_machine() -> Machine {
+    Machine { allowed_padding_packets: 0, max_padding_frac: 0.0, allowed_blocked_microsec: 0, max_blocking_frac: 0.0, states: Vec::new() }
+}
+fn rng() -> RngSource {
+    // never drawn from (the machine step is stubbed); built without from_seed's byte loops
+    RngSource::Xoshiro(unsafe { core::mem::transmute::<[u64; 4], Xoshiro256StarStar>([1, 2, 3, 4]) })
+}
+fn any_opt_instant() -> Option<Instant> {
+    if kani::any() {
+        Some(any_instant())
+    } else {
+        None
+    }
+}
+fn any_sched(mi: usize) -> Option<ScheduledAction> {
+    if kani::any() {
+        return None;
+    }
+    let machine = MachineId::from_raw(mi);
+    let timeout = any_duration_upto(DAY_US);
+    let action = if kani::any() {
+        TriggerAction::SendPadding { timeout, bypass: kani::any(), replace: kani::any(), machine }
+    } else {
+        TriggerAction::BlockOutgoing { timeout, duration: any_duration_upto(DAY_US), bypass: kani::any(), replace: kani::any(), machine }
+    };
+    Some(ScheduledAction { action, time: any_instant() })
+}
+fn state_with<'a>(machines: &'a [Machine], t0: Instant) -> SimState<&'a [Machine], RngSource> {
+    let n = machines.len();
+    SimState {
+        framework: maybenot::verif::new_unchecked(machines, t0, rng()),
+        scheduled_action: vec![None; n],
+        scheduled_internal_timer: vec![None; n],
+        blocking_until: None,
+        blocking_bypassable: false,
+        integration: None,
+    }
+}
+
+// ------------------------------------------------------------------------------------------
+// C17 / C18: what the simulator does with the actions the framework returns
+// ------------------------------------------------------------------------------------------
+/// `trigger_update` for one event on a side with one machine: the machine step returns ANY
+/// well-formed action; pending action timer and internal timer are arbitrary.
+#[kani::proof]
+#[kani::unwind(4)]
+#[kani::stub(alloc::fmt::format, format_stub)]
+#[kani::stub(rand::thread_rng, no_thread_rng)]
+#[kani::stub(maybenot::framework::Framework::transition, maybenot::verif::transition_any_action)]
+fn s_trigger_update() {
+    set_mode(MODE_ANY_ACTION);
+    let t0 = any_instant();
+    let machines = [noop_machine()];
+    let mut st = state_with(&machines[..], t0);
+    st.scheduled_action[0] = any_sched(0);
+    st.scheduled_internal_timer[0] = any_opt_instant();
+    let before_action = st.scheduled_action[0].clone();
+    let before_timer = st.scheduled_internal_timer[0];
+    let mut sq = empty_queue();
+    let now = any_instant();
+    let is_client: bool = kani::any();
+    // a global event: every machine takes one step
+    let next = SimEvent { event: TriggerEvent::TunnelRecv, time: now, integration_delay: Duration::ZERO, client: is_client,
+        contains_padding: false, bypass: false, replace: false, debug_note: None };
+    trigger_update(&mut st, &next, &now, &mut sq, is_client);
+    assert!(aa_calls() == 1, "C17: one event makes each machine take exactly one step");
+    let a = aa_last(0);
+    let after_action = &st.scheduled_action[0];
+    let after_timer = st.scheduled_internal_timer[0];
+    let queued = sq.len();
+    // the very Duration values the framework handed out (no second micros -> Duration conversion)
+    let to: Duration = aa_timeout();
+    let du: Duration = aa_duration();
+    match a.kind {
+        0 => {
+            assert!(*after_action == before_action && after_timer == before_timer && queued == 0, "C17: without an action nothing changes");
+        }
+        1 => {
+            // cancel: Action / Internal / All
+            let (ca, ci) = (a.timer == 0 || a.timer == 2, a.timer == 1 || a.timer == 2);
+            assert!(if ca { after_action.is_none() } else { *after_action == before_action },
+                "C17: a Cancel of the action timer supersedes the pending action, which then never fires; other cancels leave it alone");
+            assert!(if ci { after_timer.is_none() } else { after_timer == before_timer },
+                "C18: a Cancel of the internal timer clears it (no TimerEnd for a cancelled timer); other cancels leave it alone");
+            assert!(queued == 0, "C18: a cancel reports nothing");
+        }
+        2 | 3 => {
+            assert!(after_timer == before_timer && queued == 0, "C18: padding and blocking actions do not touch the internal timer");
+            match after_action {
+                Some(sa) => {
+                    assert!(sa.time == now + to, "C17: the action fires exactly at its issue time plus its timeout");
+                    let same = match &sa.action {
+                        TriggerAction::SendPadding { timeout, bypass, replace, machine } => {
+                            a.kind == 2 && *timeout == to && *bypass == a.bypass && *replace == a.replace && machine.into_raw() == 0
+                        }
+                        TriggerAction::BlockOutgoing { timeout, duration, bypass, replace, machine } => {
+                            a.kind == 3 && *timeout == to && *duration == du && *bypass == a.bypass && *replace == a.replace && machine.into_raw() == 0
+                        }
+                        _ => false,
+                    };
+                    assert!(same, "C17: the pending action is the most recent action the framework returned for that machine (a newer action supersedes the old one)");
+                }
+                None => assert!(false, "C17: a returned SendPadding/BlockOutgoing must be scheduled"),
+            }
+        }
+        _ => {
+            assert!(*after_action == before_action, "C17: an UpdateTimer action does not touch the action timer");
+            // C18: the timer is set or changed iff replace, or no timer running, or a later expiry than the one running
+            let expiry = now + du;
+            let sets = a.replace || before_timer.is_none() || expiry > before_timer.unwrap();
+            if sets {
+                assert!(after_timer == Some(expiry), "C18: the internal timer expires at the instant of the UpdateTimer action plus its duration");
+                assert!(queued == 1, "C18: whenever an UpdateTimer sets or changes the timer, exactly one TimerBegin is reported");
+                let q = if is_client { &sq.client } else { &sq.server };
+                let e = q.internal.peek();
+                assert!(e.is_some(), "C18: TimerBegin is queued on the machine's own side");
+                let e = e.unwrap();
+                assert!(e.event == TriggerEvent::TimerBegin { machine: MachineId::from_raw(0) } && e.time == now && e.client == is_client,
+                    "C18: TimerBegin is reported for that machine at that same instant");
+            } else {
+                assert!(after_timer == before_timer && queued == 0, "C18: an UpdateTimer that does not change the timer reports nothing and keeps the running expiry");
+            }
+        }
+    }
+    kani::cover!(a.kind == 4 && before_timer.is_none() && a.duration_us == 0, "zero-duration timer with no timer running");
+    kani::cover!(a.kind == 3 && before_action.is_some(), "blocking action supersedes a pending action");
+    core::mem::forget(sq);
+    core::mem::forget(st);
+    core::mem::forget(machines);
+}
+
+/// `do_scheduled_action`: the due action fires, exactly once, for its machine, at its due time.
+#[kani::proof]
+#[kani::unwind(4)]
+#[kani::stub(alloc::fmt::format, format_stub)]
+#[kani::stub(rand::thread_rng, no_thread_rng)]
+fn s_do_scheduled_action() {
+    let t0 = any_instant();
+    let mc = [noop_machine(), noop_machine()];
+    let ms = [noop_machine()];
+    let mut client = state_with(&mc[..], t0);
+    let mut server = state_with(&ms[..], t0);
+    client.scheduled_action[0] = any_sched(0);
+    client.scheduled_action[1] = any_sched(1);
+    server.scheduled_action[0] = any_sched(0);
+    client.blocking_until = any_opt_instant();
+    client.blocking_bypassable = kani::any();
+    server.blocking_until = any_opt_instant();
+    server.blocking_bypassable = kani::any();
+    let target = any_instant();
+    let due = |s: &Option<ScheduledAction>| s.as_ref().map(|x| x.time == target).unwrap_or(false);
+    let (d0, d1, d2) = (due(&client.scheduled_action[0]), due(&client.scheduled_action[1]), due(&server.scheduled_action[0]));
+    // pick_next only calls this with the due time of some pending action
+    kani::assume(d0 || d1 || d2);
+    let pre = [client.scheduled_action[0].clone(), client.scheduled_action[1].clone(), server.scheduled_action[0].clone()];
+    let (pre_cb, pre_cbb, pre_sb, pre_sbb) = (client.blocking_until, client.blocking_bypassable, server.blocking_until, server.blocking_bypassable);
+
+    let ev = do_scheduled_action(&mut client, &mut server, target);
+
+    // exactly the first due slot (client machines first) fired and was cleared; the others are untouched
+    let fired = if d0 { 0 } else if d1 { 1 } else { 2 };
+    let post = [&client.scheduled_action[0], &client.scheduled_action[1], &server.scheduled_action[0]];
+    let mut i = 0;
+    while i < 3 {
+        if i == fired {
+            assert!(post[i].is_none(), "C17: an action that fired is cleared so that it happens once");
+        } else {
+            assert!(*post[i] == pre[i], "C17: actions of other machines stay pending");
+        }
+        i += 1;
+    }
+    let sa = pre[fired].as_ref().unwrap();
+    let is_client = fired < 2;
+    let mach = if fired == 1 { 1 } else { 0 };
+    assert!(ev.is_some(), "C17: a due action is reported");
+    let ev = ev.unwrap();
+    assert!(ev.client == is_client && ev.integration_delay == Duration::ZERO, "C17: the report is for the side that owns the action");
+    match &sa.action {
+        TriggerAction::SendPadding { bypass, replace, .. } => {
+            assert!(ev.event == TriggerEvent::PaddingSent { machine: MachineId::from_raw(mach) } && ev.time == target,
+                "C17: PaddingSent is reported for the machine whose action fired, exactly at the due time");
+            assert!(ev.bypass == *bypass && ev.replace == *replace && ev.contains_padding, "C16: the padding carries the bypass and replace flags of its action");
+            assert!(client.blocking_until == pre_cb && client.blocking_bypassable == pre_cbb && server.blocking_until == pre_sb
+                && server.blocking_bypassable == pre_sbb, "C16: sending padding does not change blocking");
+        }
+        TriggerAction::BlockOutgoing { duration, bypass, replace, .. } => {
+            assert!(ev.event == TriggerEvent::BlockingBegin { machine: MachineId::from_raw(mach) } && ev.time == target,
+                "C16: blocking begins when the action's timeout expires and is reported with BlockingBegin for that machine at that time");
+            let (pre_until, pre_byp, until, byp, o_pre, o_pre_b, o_until, o_byp) = if is_client {
+                (pre_cb, pre_cbb, client.blocking_until, client.blocking_bypassable, pre_sb, pre_sbb, server.blocking_until, server.blocking_bypassable)
+            } else {
+                (pre_sb, pre_sbb, server.blocking_until, server.blocking_bypassable, pre_cb, pre_cbb, client.blocking_until, client.blocking_bypassable)
+            };
+            assert!(o_until == o_pre && o_byp == o_pre_b, "C16: blocking on one side never changes the other side");
+            let new_expiry = target + *duration;
+            // replace: the new duration replaces the current expiry; otherwise the longer of the two
+            let expect_until = match pre_until {
+                None => new_expiry,
+                Some(u) => if *replace || new_expiry > u { new_expiry } else { u },
+            };
+            if pre_until.is_none() && !*replace && *duration == Duration::ZERO {
+                assert!(until == Some(expect_until),
+                    "C16: a zero-duration block with no blocking active still begins (and ends at its expiry)");
+            } else {
+                assert!(until == Some(expect_until),
+                    "C16: blocking lasts the action's duration: it replaces the current expiry if the action says replace, otherwise the longer of the two applies");
+            }
+            // bypass is allowed only while EVERY action that started or updated the current blocking allowed it
+            let expect_byp = match pre_until {
+                None => *bypass,
+                Some(u) => {
+                    if *replace {
+                        *bypass
+                    } else if new_expiry > u {
+                        pre_byp && *bypass
+                    } else {
+                        pre_byp
+                    }
+                }
+            };
+            let extends = matches!(pre_until, Some(u) if !*replace && new_expiry > u);
+            if until != Some(expect_until) {
+                // zero-duration case above: nothing was started
+            } else if extends && !pre_byp && *bypass {
+                assert!(byp == expect_byp,
+                    "C16: extending blocking that does not allow bypass with a bypassable action must not make it bypassable");
+            } else {
+                assert!(byp == expect_byp,
+                    "C16: blocking allows bypass only while every action that started or updated it allowed bypass");
+            }
+            assert!(ev.bypass == byp, "C16: BlockingBegin reports whether the blocking now in force allows bypass");
+        }
+        _ => assert!(false, "C17: only padding and blocking actions are ever pending"),
+    }
+    kani::cover!(fired == 2, "server action fired");
+    kani::cover!(matches!(sa.action, TriggerAction::BlockOutgoing { .. }) && fired == 1 && pre_cb.is_some(), "blocking extended or kept on the client");
+    core::mem::forget(client);
+    core::mem::forget(server);
+    core::mem::forget(mc);
+    core::mem::forget(ms);
+}
+
+/// `do_internal_timer`: TimerEnd exactly once, exactly at the expiry, for the machine whose timer expired.
+#[kani::proof]
+#[kani::unwind(4)]
+#[kani::stub(alloc::fmt::format, format_stub)]
+#[kani::stub(rand::thread_rng, no_thread_rng)]
+fn s_do_internal_timer() {
+    let t0 = any_instant();
+    let mc = [noop_machine(), noop_machine()];
+    let ms = [noop_machine()];
+    let mut client = state_with(&mc[..], t0);
+    let mut server = state_with(&ms[..], t0);
+    client.scheduled_internal_timer[0] = any_opt_instant();
+    client.scheduled_internal_timer[1] = any_opt_instant();
+    server.scheduled_internal_timer[0] = any_opt_instant();
+    let target = any_instant();
+    let pre = [client.scheduled_internal_timer[0], client.scheduled_internal_timer[1], server.scheduled_internal_timer[0]];
+    let (d0, d1, d2) = (pre[0] == Some(target), pre[1] == Some(target), pre[2] == Some(target));
+    kani::assume(d0 || d1 || d2);
+    let ev = do_internal_timer(&mut client, &mut server, target);
+    let fired = if d0 { 0 } else if d1 { 1 } else { 2 };
+    let post = [client.scheduled_internal_timer[0], client.scheduled_internal_timer[1], server.scheduled_internal_timer[0]];
+    let mut i = 0;
+    while i < 3 {
+        if i == fired {
+            assert!(post[i].is_none(), "C18: an expired timer is cleared so that TimerEnd is reported exactly once");
+        } else {
+            assert!(post[i] == pre[i], "C18: timers of other machines keep running");
+        }
+        i += 1;
+    }
+    assert!(ev.is_some(), "C18: an expired timer is reported");
+    let ev = ev.unwrap();
+    let mach = if fired == 1 { 1 } else { 0 };
+    assert!(ev.event == TriggerEvent::TimerEnd { machine: MachineId::from_raw(mach) } && ev.time == target && ev.client == (fired < 2)
+        && !ev.contains_padding && !ev.bypass && !ev.replace,
+        "C18: TimerEnd is reported exactly at the timer's expiry for the machine (and side) whose timer expired");
+    kani::cover!(fired == 2, "server timer expired");
+    core::mem::forget(client);
+    core::mem::forget(server);
+    core::mem::forget(mc);
+    core::mem::forget(ms);
+}
+
+/// "when is the next action due": the minimum over the pending actions due at or after now
+#[kani::proof]
+#[kani::unwind(4)]
+fn s_peek_action() {
+    let now = any_instant();
+    let mk = |mi: usize| -> Option<ScheduledAction> {
+        if kani::any() {
+            None
+        } else {
+            Some(ScheduledAction {
+                action: TriggerAction::SendPadding { timeout: Duration::ZERO, bypass: false, replace: false, machine: MachineId::from_raw(mi) },
+                time: any_instant(),
+            })
+        }
+    };
+    let sc = [mk(0), mk(1)];
+    let ss = [mk(0)];
+    let d = peek_scheduled_action(&sc, &ss, now);
+    let all = [&sc[0], &sc[1], &ss[0]];
+    let mut any_due = false;
+    let mut hit = false;
+    let mut i = 0;
+    while i < 3 {
+        if let Some(a) = all[i] {
+            if a.time >= now {
+                any_due = true;
+                let w = a.time.duration_since(now);
+                assert!(d <= w, "C17: an action that is not superseded fires when due, before simulated time moves past it");
+                hit |= d == w;
+            }
+        }
+        i += 1;
+    }
+    if any_due {
+        assert!(hit, "C17: the next action time is the due time of a pending action");
+    } else {
+        assert!(d == Duration::MAX, "C17: without a pending action nothing is due");
+    }
+    kani::cover!(any_due && d == Duration::ZERO, "an action is due right now");
+}
+
+#[kani::proof]
+#[kani::unwind(4)]
+fn s_peek_internal() {
+    let now = any_instant();
+    let tc = [any_opt_instant(), any_opt_instant()];
+    let ts = [any_opt_instant()];
+    let d = peek_scheduled_internal_timer(&tc, &ts, now);
+    let allt = [tc[0], tc[1], ts[0]];
+    let mut any_due = false;
+    let mut hit = false;
+    let mut i = 0;
+    while i < 3 {
+        if let Some(t) = allt[i] {
+            if t >= now {
+                any_due = true;
+                let w = t.duration_since(now);
+                assert!(d <= w, "C18: TimerEnd is never reported after simulated time moved past the expiry");
+                hit |= d == w;
+            }
+        }
+        i += 1;
+    }
+    if any_due {
+        assert!(hit, "C18: the next timer expiry is the expiry of a running timer");
+    } else {
+        assert!(d == Duration::MAX, "C18: without a running timer nothing expires");
+    }
+    kani::cover!(any_due && d > Duration::ZERO, "a timer expires later");
+}
+
+#[kani::proof]
+#[kani::unwind(4)]
+fn s_peek_blocked() {
+    let now = any_instant();
+    let bc = any_opt_instant();
+    let bs = any_opt_instant();
+    if let Some(c) = bc {
+        kani::assume(c >= now);
+    }
+    if let Some(s) = bs {
+        kani::assume(s >= now);
+    }
+    let (d, is_c) = peek_blocked_exp(bc, bs, now);
+    match (bc, bs) {
+        (None, None) => assert!(d == Duration::MAX, "C16: without blocking there is no expiry"),
+        (Some(c), None) => assert!(is_c && d == c.duration_since(now), "C16: blocking ends exactly at its expiry"),
+        (None, Some(s)) => assert!(!is_c && d == s.duration_since(now), "C16: blocking ends exactly at its expiry"),
+        (Some(c), Some(s)) => assert!(d == c.min(s).duration_since(now) && (if is_c { c <= s } else { s <= c }),
+            "C16: the earlier of the two sides' blocking ends first, exactly at its expiry"),
+    }
+    kani::cover!(bc.is_some() && bs.is_some() && !is_c, "server blocking ends first");
 }
